@@ -206,7 +206,11 @@ class Ctx:
             "property_id": self.prop, "tier": self.tier, "seed": self.seed, "level": level, "coverage": coverage,
             "assumptions": self.assumptions, "wall_s": round(wall, 2), "violations": len(self.violations),
         }
-        (VERIF / "evidence" / f"{self.prop}.json").write_text(json.dumps(ev, indent=1, ensure_ascii=False))
+        # runs against scratch copies (self-test, seeded / harmless patches) write elsewhere: the evidence directory of
+        # /verif only ever describes /repo itself
+        out_dir = Path(os.environ["VERIF_EVIDENCE_DIR"]) if os.environ.get("VERIF_EVIDENCE_DIR") else VERIF / "evidence"
+        out_dir.mkdir(parents=True, exist_ok=True)
+        (out_dir / f"{self.prop}.json").write_text(json.dumps(ev, indent=1, ensure_ascii=False))
         print(f"SUMMARY property={self.prop} tier={self.tier} level={level} obligations={n_obl} discharged={n_dis} "
               f"undecided={len(self.undecided)} bounded_evaluations={evals} violations={len(self.violations)} "
               f"known_findings={len(self.known)} wall={wall:.1f}s")
